@@ -31,6 +31,14 @@ def _step_build(op):
     return build
 
 
+def _prepare_bounded_build(gw, rl):
+    n_layout, ops = vmunit.vm_mirror(gw)
+    name, labels = vmunit.build_step_unit(gw, 'PREPARE_EXEC', rl)
+    return {'c_sources': [os.path.join(CONTRACTS, 'vm_step.c')], 'cdefs': ['PREPARE_BOUNDED=3'], 'cxx_sources': [os.path.join(gw, name)],
+            'entry': 'h_step', 'enforce': ['w_executeSingle/c_step_PREPARE_EXEC'], 'dropped': DROPPED_VM, 'min_obligations': 50,
+            'cbmc_extra': ['--unwind', '6']}
+
+
 def _layout_build(gw, rl):
     n_layout, ops = vmunit.vm_mirror(gw)
     return {'c_sources': [os.path.join(gw, 'layout_c.c')], 'cxx_sources': [os.path.join(gw, 'layout_x.cpp')],
@@ -91,6 +99,9 @@ def groups():
         gs.append(Group(f'step_{op}', props, 'Theo::VM::executeSingle (VM/src/vm.cpp), case OpCode::' + op,
                         f'c_step_{op}', _step_build(op), timeout=900,
                         expect_loops=1 if op == 'PREPARE_EXEC' else 0))
+    gs.append(Group('stepU_PREPARE_EXEC', STEP_PROPS, 'Theo::VM::executeSingle (VM/src/vm.cpp), case OpCode::PREPARE_EXEC', 'c_step_PREPARE_EXEC',
+                    _prepare_bounded_build, timeout=900,
+                    bounded='BOUNDED stand-in: frame size count <= 3, zero-fill loop unwound (--unwind 6 --unwinding-assertions) instead of its loop contract; catches changes of the loop shape that make the loop contract inapplicable'))
     gs.append(Group('step_ALL_unsliced', STEP_PROPS + ['C17', 'C18'], 'Theo::VM::executeSingle (VM/src/vm.cpp), unsliced, all 12 cases',
                     'c_step_any', _step_all_build, timeout=3600, tier='thorough', expect_loops=1,
                     note='cross-check: the general contract used as callee contract of execute holds on the unsliced body'))
